@@ -483,6 +483,9 @@ pub fn profile_for(prop: &str, tier: &str) -> Profile {
             p.max_keys = 8;
         }
         "C18" => {
+            // many hybridized attributes: encapsulations whose targets are all hybridized take the other branch of
+            // `full_decaps`, and with several targets some become unrecoverable (disabled, deleted, pruned) while others stay
+            p.hybrid_pct = 65;
             p.w_recaps = 8;
             p.w_encaps = 6;
             p.w_edits = [1, 1, 2, 2, 1, 4];
@@ -703,11 +706,13 @@ pub fn plan_c07(tier: &str, seed: u64) -> Plan {
     let mut rng = SplitMix64::new(seed ^ 0xC07);
     let ex = |tags: &[&str]| Expect { out: "ok 0 || err *".into(), oracle: "tampered-encapsulation-opens".into(), tags: tags.iter().map(|s| s.to_string()).collect() };
     // (name, policy, #targets, hybrid)
-    let shapes: [(&str, &str, usize, bool); 4] = [
+    // hybrid3: the authorised key opens every component, so an exchange between two of them leaves a third intact
+    let shapes: [(&str, &str, usize, bool); 5] = [
         ("classic1", "D::A && S::L", 1, false),
         ("classic3", "D::A && S::L || D::A && S::T || D::A", 3, false),
         ("hybrid1", "D::A && S::T", 1, true),
         ("hybrid2", "D::A && S::T || S::T && D::B", 2, true),
+        ("hybrid3", "D::A && S::T || S::T && D::B || S::T", 3, true),
     ];
     let mut cases = vec![];
     for (name, pol, n, hyb) in shapes {
@@ -818,7 +823,7 @@ pub fn plan_c07(tier: &str, seed: u64) -> Plan {
         per_line: true,
         cases,
         exhaustive: thorough,
-        rule: "serialised encapsulations of four shapes (classic 1 / 3 targets incl. mixed flavours, hybridised 1 / 2 targets): every byte position (all in thorough; the first 120 and every 7th plus 200 random ones in quick for the long hybridised forms) x {bit 0, bit 7}, truncations, every pair of tag bytes changed with cancelling differences (same xor mask, +1 / -1), random pairs of bytes anywhere, whole tags and whole masked seeds replaced by random values (500 / 250 per component in quick, 20 000 / 8 000 in thorough: a comparison that looks at k bits of the tag lets one in 2^k through), and every structural operator (swap / drop / duplicate traps, swap / drop / duplicate components, swap only E or only F, splice a component / the traps / the tag / all components of a second honest encapsulation, flavour flip with re-chunking); each mutant is deserialised and decapsulated by the real code with an authorised and an unauthorised key; the specification demands no secret ever; distinct = distinct (mutant, outcome) lines".into(),
+        rule: "serialised encapsulations of five shapes (classic 1 / 3 targets incl. mixed flavours, hybridised 1 / 2 / 3 targets): every byte position (all in thorough; the first 120 and every 7th plus 200 random ones in quick for the long hybridised forms) x {bit 0, bit 7}, truncations, every pair of tag bytes changed with cancelling differences (same xor mask, +1 / -1), random pairs of bytes anywhere, whole tags and whole masked seeds replaced by random values (500 / 250 per component in quick, 20 000 / 8 000 in thorough: a comparison that looks at k bits of the tag lets one in 2^k through), and every structural operator (swap / drop / duplicate traps, swap / drop / duplicate components, swap only E or only F, splice a component / the traps / the tag / all components of a second honest encapsulation, flavour flip with re-chunking); each mutant is deserialised and decapsulated by the real code with an authorised and an unauthorised key; the specification demands no secret ever; distinct = distinct (mutant, outcome) lines".into(),
     }
 }
 
